@@ -183,6 +183,20 @@ func Run(c Case) core.Result {
 			return res
 		}
 	}
+	if over && style == "dollar" {
+		// metamorphic: the property leaves open how an index beyond the protocol limit is clamped,
+		// but the answer cannot depend on how far beyond it lies: replacing every out-of-range
+		// index by 65536 must give the same length
+		n2, _, _, p2 := call(normalizeOver(q))
+		if p2 != "" {
+			res.Sig, res.Violation = "C20/panic", fmt.Sprintf("ParseParameters(%q) panicked: %s", clip(normalizeOver(q)), p2)
+			return res
+		}
+		if n2 != n {
+			res.Sig, res.Violation = "C20/over-limit-inconsistent", fmt.Sprintf("ParseParameters(%q) returned %d placeholders but %d with every out-of-range index written as $65536 (%q)", clip(q), n, n2, clip(normalizeOver(q)))
+			return res
+		}
+	}
 	if c.E2E && !strings.Contains(q, "\x00") {
 		if v := e2e(q, n); v != "" {
 			res.Sig, res.Violation = "C20/describe", v
@@ -232,4 +246,29 @@ func clip(s string) string {
 		return s[:120] + "..."
 	}
 	return s
+}
+
+// normalizeOver rewrites every $n marker with n > 65535 as $65536.
+func normalizeOver(q string) string {
+	var sb strings.Builder
+	lim := big.NewInt(maxParams)
+	for i := 0; i < len(q); {
+		if q[i] == '$' && i+1 < len(q) && isDigit(q[i+1]) {
+			j := i + 1
+			for j < len(q) && isDigit(q[j]) {
+				j++
+			}
+			n, _ := new(big.Int).SetString(q[i+1:j], 10)
+			if n.Cmp(lim) > 0 {
+				sb.WriteString("$65536")
+			} else {
+				sb.WriteString(q[i:j])
+			}
+			i = j
+			continue
+		}
+		sb.WriteByte(q[i])
+		i++
+	}
+	return sb.String()
 }
